@@ -25,6 +25,36 @@ CLAIMED = {
             "observed outcome must be a behaviour of the specification (exact optimum, distinctness, row masks, "
             "order, count, positive weight, same seed => same result, all ties reachable).",
             "DESIGN.md 5 (C18)", TRUST),
+    "C03": ("TLA+ modules Budget/MC_Budget (QueryPureInv) + BudgetTrace (exact state equality after every query) + "
+            "StreamProto (digest of the complete committed state, twin run without the extra queries) validated by TLC "
+            "on recorded histories",
+            "TLC explores every interleaving of query/repeated query/update over all chunkings of adversarial utility "
+            "streams for each manager kind and checks that nothing but update changes the committed state; histories of "
+            "every budget manager and every exported stream strategy (default and explicit managers) with inserted "
+            "repeated and foreign queries are recorded from the real code and every event is validated by TLC: the "
+            "projected state (exact rationals / generator position, or a digest of all fitted attributes incl. nested "
+            "budget_manager_ and RandomState) must be unchanged by query, repeated queries must agree, and all later "
+            "results and states must equal those of the twin run without the extra queries.",
+            "DESIGN.md 5 (C03)", TRUST),
+    "C04": ("TLA+ module Budget: NoOverspend/UBound invariants model-checked by TLC at every prefix for adversarial "
+            "streams and all chunkings; BudgetTrace/StreamProto trace validation of real managers and strategies "
+            "(exact guard semantics in the dyadic regime, counting bound on long streams)",
+            "TLC checks the bound at every prefix (inside chunks too) against an adversarial environment that chooses "
+            "every utility, random outcome and chunking, for each bounded manager kind over a (w, budget) grid; the "
+            "real managers are bound to the model by exact trace validation (every grant decision must equal the "
+            "specification's decision, including exact equality at the guard) and by long-stream traces of all managers "
+            "and strategies whose grant counts are checked against the bound at every prefix by TLC.",
+            "DESIGN.md 5 (C04)", TRUST),
+    "C10": ("TLA+ module Budget: SimEqualsCommit/ChunkInvariant (shadow one-at-a-time run) model-checked by TLC; "
+            "BudgetTrace validates every chunking of the same stream against the per-instance folds; StreamProto "
+            "validates that update accepts every query result",
+            "TLC proves on the model that committing a chunk equals the simulation and the one-instance-at-a-time run "
+            "for all chunkings (and that the code-shaped Stale deviation violates it); the real managers and baseline "
+            "strategies are replayed under every composition of a stream into chunks and each query/update event must "
+            "be exactly the step the per-instance specification computes (decisions, u_t_, theta_, counters, windows, "
+            "generator position); for all 13 stream strategies update must accept what query returned, indices must be "
+            "strictly increasing in range and utilities have one entry per candidate.",
+            "DESIGN.md 5 (C10)", TRUST),
 }
 
 NOT_YET = {}
